@@ -42,7 +42,10 @@ def main(tier):
     # model those theorems talk about
     c.phase_proofs("ParserShape")
     from checks import layerc
-    layerc.blocks(c, tier, 0.2 if tier == "quick" else 0.1)
+    layerc.blocks(c, tier, 0.12 if tier == "quick" else 0.1)   # the whole-parser tie below runs the block phase too
+    # Parse_C02 (Props/Parse.v): every event of the HTML model is safe on the tree that ONE Coq function of the input
+    # bytes returns (Model/Parse.v parse_document_model), and that function is tied end to end to parse_document here
+    layerc.whole(c, tier, 0.12 if tier == "quick" else 0.15)
     n = 2500 if tier == "quick" else 25000
     recs = htmlfam.tie_html(c, n, 400 if tier == "quick" else 4000, opts_fn=safe_opts)
     if recs is None:
@@ -117,7 +120,7 @@ def main(tier):
             c.violation("synthetic tree (S4, S7 hold, unsafe off): " + what.get(x, x), {"opts": o, "tree": t, "html": unhx(h)[:600].decode("utf-8", "replace"), "line": f"render html {o} {t}"})
     c.cov["spec_checks"]["html_safe_check(real html) = 0 (synthetic trees with S4/S7, unsafe off)"] = len(so)
     c.cov["partial_clauses"] = ["theorems are about the events of Model/Html.v; the byte-level statement (lexer round trip) is evaluated on the real output, not proved",
-                                "S4/S7 are theorems about the parser models (Props/ParserShape.v: block phase, inline phase, footnote pass and their composition final_tree); that finalize_document + postprocess_text_nodes of the compiled parser is that composition is not modelled as one function, so the clauses stay evaluated on every dumped tree"]
+                                "S4/S7 are theorems about the parser: Props/Parse.v Parse_shape / Parse_C02 state them of every tree that Model/Parse.v parse_document_model (block phase + process_inlines + process_footnotes + postprocess_text_nodes as ONE function of the input bytes) returns, and that function is tied end to end to the compiled parse_document (correspondence parser.whole: equal trees with positions); what remains outside Coq: totality of the parser model (statements are about runs that return Ok) and the Unicode oracles; the clauses are still evaluated on every dumped tree"]
     c.assumptions = ["no plugins, URL rewriters or broken-link callback (as the property states)", "the Anchorizer slug stage is an external Unicode function (hypothesis of C02_events: its output is inert)"]
     c.finish(rule="distinct by (options, document) or synthetic (options, tree); non-trivial = the document contains at least one of < > & \" ' (parser cases), every synthetic tree carries adversarial payloads",
              trusted_base=htmlfam.TRUSTED)
